@@ -107,6 +107,12 @@ pub fn equal_up_to(a: &str, b: &str, ignore: &[&str]) -> Result<(), String> {
 /// print → parse → (verify, done by `parse`) → print; texts must agree. Returns the re-parsed IR.
 pub fn roundtrip<'eng>(ir: &Context<'eng>) -> Result<(Context<'eng>, Vec<String>), String> {
     let s = ir.to_string();
+    if let Ok(d) = std::env::var("VH_DUMP_IR") {
+        // debugging aid: keep every printed stage
+        static N: std::sync::atomic::AtomicUsize = std::sync::atomic::AtomicUsize::new(0);
+        let n = N.fetch_add(1, std::sync::atomic::Ordering::SeqCst);
+        let _ = std::fs::write(format!("{d}/ir_{n:03}.txt"), &s);
+    }
     let ir2 = sway_ir::parser::parse(&s, ir.source_engine(), ir.experimental, ir.backtrace)
         .map_err(|e| {
             // quote the offending line of the printed text: the parser only gives a position
